@@ -152,7 +152,7 @@ def r3_polarity(ctx):
             lits = literals(N.conj(conds))
             ctx.check(lits == {want}, f, site, "elected iff tally >= threshold", str(sorted(lits)),
                       f"the electing action `{astx.u(act)[:50]}` executes under {sorted(lits)}; documented: iff `{want}`")
-    if sites < 2:
+    if sites < 1:
         ctx.vanished(f"tally/threshold-controlled electing actions in STV: {sites} found")
     # the simultaneous loop elects a prefix of the high-to-low ranking and stops at the first failure
     f = prog.find_func("STV._simultaneous_elect_step")
@@ -250,7 +250,6 @@ def r4_surplus_factor(ctx):
               f"SequentialRCV passes transfer=`{d}`; documented: the winner's ballots move on at full weight")
 
 
-@shape_rule
 def r5_default_election(ctx):
     prog = ctx.prog
     f = prog.find_func("STV._run_step")
@@ -273,20 +272,17 @@ def r5_default_election(ctx):
     if len(hits) != 1:
         ctx.violated(f, f.node, "default-election branch", f"{len(hits)} branches elect prev_state.remaining wholesale; expected one")
         return
-    g = N.conj(astx.path_condition(f.node, hits[0], pm))
+    Ni = Normalizer(f.node, rename=rename, inline=True, int_atoms=lambda a: True)
+    g = Ni.conj(astx.path_condition(f.node, hits[0], pm))
     lits = literals(g)
     want_eq = bool_key(spec_guard("NC == M - E", int_atoms=lambda a: True))
-    none_above = any(re.fullmatch(r"not truthy\((\w+)\)", l) for l in lits)
+    # "somebody reaches the threshold", in whichever spelling: a non-empty filtered list of the tallies, or any(...)
+    prev = f.params[2]
+    SOME_ABOVE = bool_key(Normalizer(None, inline=False).guard(ast.parse(f"any(score >= self.threshold for score in {prev}.scores.values())", mode="eval").body))
+    none_above = ("not " + SOME_ABOVE) in lits
     ctx.check(want_eq in lits and none_above and len(lits) == 2, f, hits[0],
               "default election iff nobody reaches the threshold and remaining candidates == unfilled seats", bool_key(g),
               f"default-election branch is taken under `{bool_key(g)}`; documented `no tally >= threshold and {want_eq}`")
-    # above_thresh_cands is the set of candidates with tally >= threshold of prev_state
-    m = next((re.fullmatch(r"not truthy\((\w+)\)", l) for l in lits if re.fullmatch(r"not truthy\((\w+)\)", l)), None)
-    if m:
-        dv = astx.unique_def(f.node, m.group(1))
-        good = isinstance(dv, astx.LCOMP) and astx.u(dv.generators[0].iter).endswith(".scores.items()") and len(dv.generators[0].ifs) == 1
-        ctx.check(bool(good), f, dv or f.node, "threshold test ranges over all current tallies", astx.u(dv)[:90] if dv is not None else "",
-                  "the list of above-threshold candidates is not a filter over prev_state.scores.items()")
     # it returns the empty profile and eliminates nobody
     blk = pm[hits[0]]
     seq = blk.orelse if hits[0] in getattr(blk, "orelse", []) else blk.body
@@ -375,7 +371,6 @@ def r7_recorded_tallies(ctx):
         ctx.vanished("STV._run_step store block")
 
 
-@shape_rule
 def r8_transfer_wiring(ctx):
     prog = ctx.prog
     for name in ("STV._simultaneous_elect_step", "STV._single_elect_step"):
@@ -411,14 +406,14 @@ def r8_transfer_wiring(ctx):
     # mode switch
     f = prog.find_func("STV._run_step")
     pm = astx.parents(f.node)
-    N = Normalizer(f.node, inline=False)
+    N = Normalizer(f.node, inline=True)
+    SOME_ABOVE8 = bool_key(Normalizer(None, inline=False).guard(ast.parse(f"any(score >= self.threshold for score in {f.params[2]}.scores.values())", mode="eval").body))
     for helper, pol in (("_simultaneous_elect_step", True), ("_single_elect_step", False)):
         cs = astx.calls_in(f.node, helper)
         good = len(cs) == 1
         if good:
             lits = literals(N.conj(astx.path_condition(f.node, cs[0], pm)))
-            good = (("truthy(self.simultaneous)" in lits) if pol else ("not truthy(self.simultaneous)" in lits)) and \
-                any(re.fullmatch(r"truthy\(\w+\)", l) and l != "truthy(self.simultaneous)" for l in lits)
+            good = (("truthy(self.simultaneous)" in lits) if pol else ("not truthy(self.simultaneous)" in lits)) and SOME_ABOVE8 in lits
         ctx.check(good, f, cs[0] if cs else f.node, f"{helper} used iff someone reached the threshold and simultaneous is {pol}", "",
                   f"{helper} is not selected by `len(above_thresh) > 0 and simultaneous is {pol}`")
 
@@ -449,9 +444,9 @@ def r9_round_local(ctx):
 RULES = [
     ("C02.R1", r1_quota, 4, "droop/hare formulas over the constructor's total weight; unknown quota raises"),
     ("C02.R2", r2_single_writer, 3, "the threshold has a single writer (STV.__init__) and is returned unchanged once set"),
-    ("C02.R3", r3_polarity, 3, "elected iff tally >= threshold at every comparison; prefix loop shape"),
+    ("C02.R3", r3_polarity, 2, "elected iff tally >= threshold at every comparison; prefix loop shape"),
     ("C02.R4", r4_surplus_factor, 4, "surplus factor weight*(tally-threshold)/tally on winner-first ballots; SequentialRCV full weight"),
-    ("C02.R5", r5_default_election, 3, "default election iff nobody above threshold and candidates == unfilled seats"),
+    ("C02.R5", r5_default_election, 2, "default election iff nobody above threshold and candidates == unfilled seats"),
     ("C02.R6", r6_elimination, 4, "elimination takes the low end; first_place tiebreak on the initial profile; last of resolution"),
     ("C02.R7", r7_recorded_tallies, 1, "recorded tallies = first_place_votes of the returned profile, ranked high to low"),
     ("C02.R9", r9_round_local, 3, "step decisions use only the round being computed; eliminated/elected candidates are removed by exact name"),
